@@ -369,7 +369,9 @@ def rule_table_argparse(prog, rep, tier):
                     out.append((c.args[0].value, c.args[1].value, c))
         return out
 
-    r_repl = {(a_, b_) for a_, b_, _ in _replaces(r_nodes)}
+    r_repl = {(c.args[0].value, c.args[1].value) for nd_ in r_nodes for c in ast.walk(nd_)
+              if isinstance(c, ast.Call) and isinstance(c.func, ast.Attribute) and c.func.attr == "replace" and len(c.args) >= 2
+              and all(isinstance(a_, ast.Constant) and isinstance(a_.value, str) for a_ in c.args[:2])}
     for a_, b_, c in _replaces(w_nodes):
         if (b_, a_) in r_repl:
             rep.holds("TABLE-argparse", "help text escape %r->%r is undone by the parser" % (a_, b_), loc(prog, c), "")
